@@ -271,6 +271,7 @@ func (w *world) childSegment(drv *lib.Drv, i, j int, nontrivial *bool) bool {
 		// the child ran to its end (crash point beyond the last hook): tell the model that the Dir
 		// is gone nevertheless; this consumes one model event index
 		w.compare(drv, "crash k=0 files=", "nil", "restart")
+		w.res.Count("", false)
 		w.shift++
 	}
 	w.d, w.hasPrev, w.pure = nil, false, false
